@@ -143,7 +143,7 @@ fn generate(a: &Args) -> i32 {
         use crate::e2e::Cfg;
         use crate::tyseed::Ty;
         let cfg = Cfg { dup: 2, legacy_octal: false, strict_bool: false, ignore_binary: false, no_schema: false, budget: Some(Budget::default()), limits: AliasLimits::default() };
-        let (res, peak) = peak_during(|| crate::e2e::run_single(text, &Ty::Any, &cfg).len());
+        let (res, peak) = peak_during(|| crate::e2e::run_single_plain(text, &Ty::Any, &cfg).len());
         let _ = res;
         // budget-counted events of this input (raw + replayed), measured through the hook
         let d = serde_saphyr::verif_hooks::events::live_events_from_str(text, None, AliasLimits::default(), false, 2_000_000);
